@@ -63,7 +63,7 @@ TEXT["C08"] = dict(
     text="Coq theorems on the timed models: for ANY network script the parallel engine returns before timeout + delay*count + poll and the serial engine within count*max(timeout+poll, delay); with the caller's context cancelled at any "
          "instant the receiver leaves within one poll interval and the sender within one send delay; GetPublicIP ends within providers x per-checker timeout for ANY provider behaviour; constants regenerated from source. "
          "Correspondence: real engines (incl. cancellation at arbitrary instants), real GetPublicIP over a stalling RoundTripper and real reverse-DNS fan-out over a stalled resolver, elapsed virtual time compared exactly.",
-    note="PARTIAL: oracles — Source.Read returns by its deadline; HTTP client / resolver return by the deadline of the context they are given. The SACK handshake reader is modelled with time and bounded by its single 500 ms deadline for every packet stream (real reader compared under the virtual clock); the whole SACK run is bounded by composition (dial under the run context is an oracle); the shape of the reader in the source (one deadline armed before the loop, none inside, 500 ms) is regenerated on every run (tools/goextract/structure.go) and equated with the model. The RunTraceroute-level sum is not modelled; serial-engine cancellation is checked on the implementation only. Tie kind A as well: ProbeCount, TracerouteParallelParams.MaxTimeout and sack.Params.MaxTimeout are translated from the source on every run and proved equal to the model's count / deadline.",
+    note="PARTIAL: oracles — Source.Read returns by its deadline; HTTP client / resolver return by the deadline of the context they are given. The SACK handshake reader is modelled with time and bounded by its single 500 ms deadline for every packet stream (real reader compared under the virtual clock); the whole SACK run is bounded by composition (dial under the run context is an oracle); the shape of the reader in the source (one deadline armed before the loop, none inside, 500 ms) is regenerated on every run (tools/goextract/structure.go) and equated with the model. The whole request is modelled too (runs in parallel, paced end-to-end probes, public-IP lookup, reverse-DNS enrichment): exact elapsed time compared with the real RunTraceroute under the virtual clock, bound proved (C08_request_bounded); serial-engine cancellation is checked on the implementation only. Tie kind A as well: ProbeCount, TracerouteParallelParams.MaxTimeout and sack.Params.MaxTimeout are translated from the source on every run and proved equal to the model's count / deadline.",
     technique="Coq proof (fuel-indexed induction on timed engine models, bound invariant) + differential timing of the real code under synctest's virtual clock")
 
 _DRVNOTE = ("Tie kind B. The byte-level decoders/builders model third-party gopacket code and are validated, not verified; the theorems are about the matchers' logic on the parsed view plus the decoders' totality. "
